@@ -868,6 +868,13 @@ def gen_c20(r, knobs=None):
     names = b.names(c0)
     for n in r.sample(names, r.randint(0, len(names))):
         b.req(c0, n)
+    unfinished = [n for n in names if b.insts(c0)[n].kind in ('cont', 'dir')]
+    if unfinished and b.rr.random() < 0.4:
+        # an unfinished computation in the source: its work directory (kept for the next attempt / set aside) is part of the source too
+        nu = b.rr.choice(unfinished)
+        b.op(op='armrun', slug=b.insts(c0)[nu].slug, kind='raise_before_return', at=0)
+        b.req(c0, nu)
+        b.op(op='disarm')
     if r.random() < 0.25 and names:
         # the source store has a history of its own: a forced recomputation died there at some point
         b.proc(hs=r.choice([0, 1]))
